@@ -249,8 +249,10 @@ class J1939_21:
                                 data.append(255)
                         data.insert(0, buf['next_packet_to_send']+1)
 
-                        # modify the snd_buffer state in anticipation
-                        # of the message we are about to transmit
+                        # a broadcast is not answered: send the packet first (the session stays
+                        # registered until its last packet is written, so that the next broadcast of
+                        # this source cannot overtake it) and count the interval from the end of the write
+                        self.__send_tp_dt(buf['src_address'], buf['dest_address'], data)
 
                         buf['next_packet_to_send'] += 1
 
@@ -262,9 +264,6 @@ class J1939_21:
                         else:
                             # done
                             del self._snd_buffer[bufid]
-
-                        # state is updated and ready for recv - now send data
-                        self.__send_tp_dt(buf['src_address'], buf['dest_address'], data)
                     elif buf['state'] == self.SendBufferState.TRANSMISSION_FINISHED:
                         del self._snd_buffer[bufid]
                     else:
